@@ -538,5 +538,25 @@ func TestDequeInterfaceElements(t *testing.T) {
 	vk.Run(t, suite, "deque-any", 2500, genPlan, runPlanAny)
 }
 
+// Element types of unusual sizes: zero-size elements (a deque of struct{} is a counter; every slot has the same
+// address and size 0) and elements much larger than a cache line (anything sized in bytes rather than in slots).
+type wideElem struct {
+	id  int
+	pad [40]int64
+}
+
+func TestDequeOddElementSizes(t *testing.T) {
+	vk.Run(t, suite, "deque-elem-size", 1500, genPlan, func(p Plan) (vk.Outcome, error) {
+		if len(p.Ops)%2 == 0 {
+			out, err := runWith(p, func(int) struct{} { return struct{}{} })
+			out.Label("elem:struct{}")
+			return out, err
+		}
+		out, err := runWith(p, func(id int) wideElem { return wideElem{id: id} })
+		out.Label("elem:328-bytes")
+		return out, err
+	})
+}
+
 // FuzzDeque: native coverage-guided fuzzing of the same property (thorough tier only).
 func FuzzDeque(f *testing.F) { vk.Fuzz(f, suite, "deque", genPlan, runPlan) }
